@@ -22,7 +22,7 @@ from ._eval_ctx import (
 )
 from ._lambda_funs import is_lambda, inspect_lambda_condition
 from ._print_ast import pformat
-from ._retrieve_objects import ObjectRetrieval, function_path
+from ._retrieve_objects import ObjectRetrieval, function_path, unwrapped_function
 from .fun_args import dds_hash, get_arg_list
 from .introspect import (
     InspectFunction,
@@ -429,7 +429,7 @@ class IntroVisitorIndirect(_ScopedVisitor):
         ):
             # Quick check that it is indeed a function or a module:
             # TODO: add a test for modules
-            obj = self._start_mod.__dict__[node.id]
+            obj = unwrapped_function(self._start_mod.__dict__[node.id])
             self._store_names.add(LocalVar(node.id))
             # Just handling functions, not modules.
             # Handling modules is more complicated (requires tracing the full call) and it can be easily worked around
